@@ -64,6 +64,82 @@ func checkC09(w *World, r *Report) {
 		r.Floor("protocol", 6)
 		return
 	}
+	// a helper that only forwards two of its parameters to os.Rename stands for the rename:
+	// the protocol is then checked at its (single) call, and the helper itself must return a
+	// nil error only when a rename succeeded
+	var helper *ssa.Function
+	srcIdx, dstIdx := 0, 1
+	{
+		pidx := func(v ssa.Value) int {
+			if p, ok := w.Resolve(v).(*ssa.Parameter); ok {
+				for i, q := range pub.Params {
+					if q == p {
+						return i
+					}
+				}
+			}
+			return -1
+		}
+		si, di := -2, -2
+		forward := true
+		for _, rn := range renames {
+			a, b := pidx(rn.Common().Args[0]), pidx(rn.Common().Args[1])
+			if a < 0 || b < 0 || (si != -2 && (si != a || di != b)) {
+				forward = false
+			}
+			si, di = a, b
+		}
+		if forward {
+			var sites []ssa.CallInstruction
+			var host *ssa.Function
+			for _, fn := range storeFuncs {
+				for _, ci := range findCalls(fn, func(_ string, c *ssa.CallCommon) bool { return c.StaticCallee() == pub }) {
+					sites = append(sites, ci)
+					host = fn
+				}
+			}
+			if len(sites) == 1 && host != pub {
+				helper = pub
+				hname := FuncName(helper)
+				r.Anchor("rename helper (forwards its parameters to os.Rename)", hname)
+				// helper: nil error only after a successful rename (or the rename's own result)
+				var rtests []errTest
+				isRenameResult := map[ssa.Value]bool{}
+				for _, rn := range renames {
+					if c, ok := rn.(*ssa.Call); ok {
+						rtests = append(rtests, w.nilTests(helper, c)...)
+						isRenameResult[c] = true
+					}
+				}
+				okH, detail := true, ""
+				allInstrs(helper, func(in ssa.Instruction) {
+					ret, ok := in.(*ssa.Return)
+					if !ok || len(ret.Results) == 0 {
+						return
+					}
+					last := ret.Results[len(ret.Results)-1]
+					if isRenameResult[w.Resolve(last)] || !w.maybeNilError(helper, ret, last) {
+						return
+					}
+					res := PathQuery{Fn: helper, Target: func(x ssa.Instruction) bool { return x == in },
+						BlockEdge: func(b *ssa.BasicBlock, s int) bool {
+							for _, t := range rtests {
+								if t.If.Block() == b && s == t.OkSucc {
+									return true
+								}
+							}
+							return false
+						}}.Find()
+					if len(rtests) == 0 || res.Found {
+						okH, detail = false, res.String()
+					}
+				})
+				r.Check(okH, "protocol.success-after-rename", hname+": success return of the rename helper", w.Pos(helper.Pos()), "the helper returns nil only over the err == nil edge of an os.Rename (or returns the rename's own result)", "the rename helper can return nil without a successful rename ("+detail+")")
+				pub, renames = host, sites
+				srcIdx, dstIdx = si, di
+			}
+		}
+	}
 	r.Anchor("publishing function (calls os.Rename)", FuncName(pub))
 	fname := FuncName(pub)
 
@@ -73,7 +149,7 @@ func checkC09(w *World, r *Report) {
 		c := rn.Common()
 		pos := w.InstrPos(rn)
 		// 1. source is the Name() of a file created by CreateTemp in the same call
-		src := w.Resolve(c.Args[0])
+		src := w.Resolve(c.Args[srcIdx])
 		var tmpFile ssa.Value
 		var createTemp *ssa.Call
 		if call, ok := src.(*ssa.Call); ok && calleeName(&call.Call) == "os.(File).Name" {
@@ -85,11 +161,11 @@ func checkC09(w *World, r *Report) {
 		}
 		if !r.Check(createTemp != nil, "protocol.temp-source", fname+": source of os.Rename", pos,
 			"source is Name() of the *os.File returned by os.CreateTemp in the same call (unique per save)",
-			"source of the rename ("+w.AP(c.Args[0])+") is not the Name() of a file that os.CreateTemp returned in this call: concurrent saves could share or clobber a temp file, or a partially written file could be published") {
+			"source of the rename ("+w.AP(c.Args[srcIdx])+") is not the Name() of a file that os.CreateTemp returned in this call: concurrent saves could share or clobber a temp file, or a partially written file could be published") {
 			continue
 		}
 		// 2. same directory
-		dst := w.Resolve(c.Args[1])
+		dst := w.Resolve(c.Args[dstIdx])
 		dstDir, dstName := "", ""
 		if jc, ok := dst.(*ssa.Call); ok && (calleeName(&jc.Call) == "path.Join" || calleeName(&jc.Call) == "path/filepath.Join") {
 			if el := w.variadicElems(jc.Call.Args[0]); len(el) == 2 {
@@ -211,7 +287,7 @@ func checkC09(w *World, r *Report) {
 		}) {
 			n := calleeName(ci.Common())
 			short := n[strings.LastIndex(n, ".")+1:]
-			allowed := short == "MkdirAll" || (fn == pub && (short == "CreateTemp" || short == "Rename"))
+			allowed := short == "MkdirAll" || (fn == pub && (short == "CreateTemp" || short == "Rename")) || (fn == helper && helper != nil && short == "Rename")
 			r.Check(allowed, "who-may-write.store", FuncName(fn)+": "+n, w.InstrPos(ci),
 				"allowed file-system mutation (directory creation / temp file / publishing rename)",
 				n+" in package store outside the CreateTemp→Encode→Rename protocol: the published file (or its directory) can be left truncated, partial or missing")
@@ -226,7 +302,7 @@ func checkC09(w *World, r *Report) {
 					if !ok || k.Value == nil || k.Value.Kind() != constant.String || constant.StringVal(k.Value) != publishedName {
 						continue
 					}
-					use := w.publishedNameUse(in)
+					use := w.publishedNameUse(in, helper, dstIdx)
 					okUse := use == "os.Rename:dst" || use == "os.Open"
 					r.Check(okUse, "who-may-write.published-name", FuncName(fn)+": use of \""+publishedName+"\"", w.InstrPos(in),
 						"used as "+use, "the published file name flows to "+use+": only the rename destination and a read-only open may name it")
@@ -238,7 +314,7 @@ func checkC09(w *World, r *Report) {
 	// 6. Load reads exactly the published path with the same codec; not-exist → empty state
 	var load *ssa.Function
 	for _, fn := range storeFuncs {
-		if fn.Parent() == nil && fn.Signature.Recv() != nil && fn.Signature.Recv().Type().String() == pub.Signature.Recv().Type().String() {
+		if fn.Parent() == nil && fn.Signature.Recv() != nil && pub.Signature.Recv() != nil && fn.Signature.Recv().Type().String() == pub.Signature.Recv().Type().String() {
 			if len(findCalls(fn, func(n string, _ *ssa.CallCommon) bool { return isOSFunc(n, "Open") })) > 0 {
 				load = fn
 			}
@@ -329,7 +405,7 @@ func (w *World) maybeNilError(fn *ssa.Function, ret *ssa.Return, v ssa.Value) bo
 }
 
 // publishedNameUse classifies what a Join of the published file name flows into.
-func (w *World) publishedNameUse(in ssa.Instruction) string {
+func (w *World) publishedNameUse(in ssa.Instruction, helper *ssa.Function, dstIdx int) string {
 	// the constant is stored into a varargs array element; find the Join call over that array
 	st, ok := in.(*ssa.Store)
 	if !ok {
@@ -363,6 +439,19 @@ func (w *World) publishedNameUse(in ssa.Instruction) string {
 					switch {
 					case isOSFunc(n, "Rename") && len(c.Args) == 2 && c.Args[1] == ssa.Value(jc) && c.Args[0] != ssa.Value(jc):
 						uses = append(uses, "os.Rename:dst")
+					case helper != nil && c.StaticCallee() == helper && dstIdx < len(c.Args) && c.Args[dstIdx] == ssa.Value(jc):
+						// the rename helper's destination parameter
+						only := true
+						for i, a := range c.Args {
+							if i != dstIdx && a == ssa.Value(jc) {
+								only = false
+							}
+						}
+						if only {
+							uses = append(uses, "os.Rename:dst")
+						} else {
+							uses = append(uses, n)
+						}
 					case n == "os.Open":
 						uses = append(uses, "os.Open")
 					default:
